@@ -972,6 +972,18 @@ def _handle_upload_pack_head(
     if protocol_version != 2:
         proto.write_pkt_line(None)
 
+    expect_shallow = (
+        depth not in (0, None) or shallow_since is not None or bool(shallow_exclude)
+    )
+    shallow_read = False
+    if expect_shallow and can_read is not None and protocol_version != 2:
+        # The server answers a deepen request with its shallow/unshallow
+        # lines right away, before any ACK. Read them now: otherwise the
+        # negotiation loop below takes them for ACK lines whenever they have
+        # already arrived, and the shallow boundary is silently lost.
+        (new_shallow, new_unshallow) = _read_shallow_updates(proto.read_pkt_seq())
+        shallow_read = True
+
     have = next(graph_walker)
     in_vain = 0
     got_ack = False
@@ -1004,7 +1016,9 @@ def _handle_upload_pack_head(
     if protocol_version == 2:
         proto.write_pkt_line(None)
 
-    if depth not in (0, None) or shallow_since is not None or shallow_exclude:
+    if shallow_read:
+        pass
+    elif expect_shallow:
         if can_read is not None:
             (new_shallow, new_unshallow) = _read_shallow_updates(proto.read_pkt_seq())
         else:
